@@ -142,6 +142,15 @@ def jlinv_fd(ty, x, p, h=None):
     return [(a - b) / (2 * h) for a, b in zip(Lp, Lm)]
 
 
+def jlinv_fd_mat(ty, M, p, h=None):
+    """As jlinv_fd, for a group element given by its 4x4 matrix."""
+    h = h or mp.mpf(10) ** -20
+    Hp = hat4(ty, p)
+    Lp = log_ref(ty, mp.expm(h * Hp, method="taylor") * M)
+    Lm = log_ref(ty, mp.expm(-h * Hp, method="taylor") * M)
+    return [(a - b) / (2 * h) for a, b in zip(Lp, Lm)]
+
+
 def jr_fd(x):
     """Right Jacobian of so3 at x: columns d/dh Log(Exp(x)^-1 Exp(x + h e_j)) at h = 0."""
     h = mp.mpf(10) ** -20
